@@ -51,7 +51,7 @@ func loadProgram(repo, libDir string) (*Program, error) {
 	if nerr > 0 {
 		return nil, fmt.Errorf("%d errors loading %s", nerr, repo)
 	}
-	prog, spkgs := ssautil.AllPackages(pkgs, ssa.BuilderMode(0))
+	prog, spkgs := ssautil.AllPackages(pkgs, ssa.GlobalDebug)
 	for _, p := range spkgs {
 		if p != nil && strings.HasPrefix(p.Pkg.Path(), modulePrefix) {
 			p.Build()
